@@ -185,6 +185,26 @@ def join_cases(ops):
     return cases
 
 
+def walk_cases(ops):
+    """Replay cases from MCWalk output: each step carries its ideal expectation and, where a known
+    deviation applies to the step from the ideal pre-state, the deviated one."""
+    cases = []
+    for op in ops:
+        if not op.get('walk'):
+            continue
+        steps = []
+        for s in op['steps']:
+            st = {'c': s['c'], 'cmd': s['cmd'],
+                  'ideal': {'r': s['r'], 'post': s['post'], 'rel': s.get('rel', []), 'tol': s.get('tol', [])}}
+            rl = s.get('real') or {}
+            if rl.get('dv') and not _same_expect(s, rl):
+                st['real'] = {'r': rl['r'], 'post': rl['post'], 'rel': rl.get('rel', []), 'tol': rl.get('tol', []),
+                              'dv': sorted(rl['dv'])}
+            steps.append(st)
+        cases.append({'fam': op.get('fam', ''), 'pre': op['pre'], 'steps': steps, 'walk': True})
+    return cases
+
+
 def b2s(arr):
     try:
         return bytes(arr).decode('latin-1')
@@ -229,6 +249,7 @@ def sample_cases(cases, n, seed):
 
 
 def run_replay(exe, sc, cases, workers=None, port=21000, timeout_ms=2000, tag='replay'):
+    port = int(os.environ.get('VERIF_PORT', port))
     cf = sc.path(tag + '-cases.jsonl')
     rf = sc.path(tag + '-results.jsonl')
     with open(cf, 'w') as f:
